@@ -5,6 +5,7 @@
 package main
 
 import (
+	"bufio"
 	"bytes"
 	"encoding/json"
 	"fmt"
@@ -36,9 +37,10 @@ func (s *sink) Read(p []byte) (int, error) { return s.buf.Read(p) }
 
 // pair is a writer and a reader over the same pipe, kept alive over a whole sequence.
 type pair struct {
-	s *sink
-	w *frame.Writer
-	r *frame.Reader
+	s  *sink
+	w  *frame.Writer
+	r  *frame.Reader
+	br *bufio.Reader // the reader's buffer (owned by the harness: BufByteReader configuration)
 }
 
 func newPair(drw *dialect.ReadWriter) *pair {
@@ -47,11 +49,12 @@ func newPair(drw *dialect.ReadWriter) *pair {
 	if err := w.Initialize(); err != nil {
 		panic(err)
 	}
-	r := &frame.Reader{ByteReader: s, DialectRW: drw}
+	br := bufio.NewReaderSize(s, 512)
+	r := &frame.Reader{BufByteReader: br, DialectRW: drw}
 	if err := r.Initialize(); err != nil {
 		panic(err)
 	}
-	return &pair{s, w, r}
+	return &pair{s, w, r, br}
 }
 
 // chunked hands the pipe's bytes out in small, varying pieces (stream mode)
@@ -88,7 +91,7 @@ func newStreamPair(drw *dialect.ReadWriter) *streamPair {
 	if err := r.Initialize(); err != nil {
 		panic(err)
 	}
-	return &streamPair{p: &pair{s, w, r}}
+	return &streamPair{p: &pair{s, w, r, nil}}
 }
 
 // add writes one frame; every 23 frames (or when flush is set) the batch is read back.
@@ -186,7 +189,7 @@ func (p *pair) roundTrip(f *ref.Frame) string {
 	if !eqFrame(got, &cmp) {
 		return fmt.Sprintf("read back {%v}, wrote {%v}", got, &cmp)
 	}
-	if p.s.buf.Len() != 0 || p.r.BufByteReader.Buffered() != 0 {
+	if p.s.buf.Len() != 0 || p.br.Buffered() != 0 {
 		return "reader left bytes unconsumed"
 	}
 	return ""
@@ -583,9 +586,9 @@ func main() {
 		"each axis is swept completely at 5 base frames (one-axis-at-a-time plus all ordered pairs of payload lengths and of base frames), not the full cross product",
 	}
 	r.Finish(map[string]any{
-		"evaluations":         evals.N(),
-		"distinct_nontrivial": distinct.N(),
-		"rule":                "frame written by frame.Writer and read back by frame.Reader through one live pair; distinct = distinct wire byte strings among the first 20000 frames of each job (lower bound); non-trivial = every frame (each differs from the base frame in the swept field)",
+		"evaluations":             evals.N(),
+		"distinct_nontrivial":     distinct.N(),
+		"rule":                    "frame written by frame.Writer and read back by frame.Reader through one live pair; distinct = distinct wire byte strings among the first 20000 frames of each job (lower bound); non-trivial = every frame (each differs from the base frame in the swept field)",
 		"distinct_v2_message_ids": ids,
 		"jobs":                    len(jobs),
 		"v1_refusals":             nref,
